@@ -179,6 +179,10 @@ class ExecCall(ExecExpr):
         if name == "get" and isinstance(recv, VDict) and not recv.items:
             yield st, (args[1] if len(args) > 1 else NONE)
             return
+        if name in ("get", "keys") and self.is_dict(recv) and not self.spec_mode:
+            # a method call on None raises AttributeError
+            self.oblige("safe", st, recv.t != self.w.null, f"dictionary is not None (.{name} on None raises AttributeError)",
+                        name=self.next_call_id("none"))
         if name == "get" and self.is_dict(recv):
             yield st, self.dict_get(st, recv, args[0], args[1] if len(args) > 1 else NONE)
             return
